@@ -186,7 +186,7 @@ pub fn worker_case(case: &str) -> String {
     let ids: Vec<ObjectId> = doc.page_iter().collect();
     let pages: Vec<(u32, ObjectId)> = doc.get_pages().into_iter().collect();
     let numbered: Vec<(u32, ObjectId)> = ids.iter().enumerate().map(|(i, id)| ((i + 1) as u32, *id)).collect();
-    format!("{} {}", reply(&ids), if pages == numbered { "num" } else { "NUM" })
+    format!("{} {} M{}", reply(&ids), if pages == numbered { "num" } else { "NUM" }, pages.iter().map(|(k, (n, g))| format!(" {}={}_{}", k, n, g)).collect::<String>())
 }
 
 /// number of cases that did not return (timeout / abort); after a few the campaign stops early —
@@ -195,7 +195,9 @@ static NO_RESULT: std::sync::atomic::AtomicUsize = std::sync::atomic::AtomicUsiz
 fn give_up() -> bool { NO_RESULT.load(std::sync::atomic::Ordering::Relaxed) >= 4 }
 
 /// run one request in the isolated worker; Err = panic / timeout / abort description
-fn run_real(doc: &Document) -> Result<(Vec<ObjectId>, bool), (String, String)> {
+fn run_real(doc: &Document) -> Result<(Vec<ObjectId>, bool), (String, String)> { run_real_map(doc).map(|(a, b, _)| (a, b)) }
+/// as `run_real`, plus the text of the `get_pages` map (`ok <n> <k>=<num>_<gen>*`, the reply of model op `pagesmap`)
+fn run_real_map(doc: &Document) -> Result<(Vec<ObjectId>, bool, String), (String, String)> {
     let req = request(doc);
     let out = crate::iso::run_isolated("C12", &[req], 3000, 2048).pop().unwrap_or_default();
     if out.starts_with("timeout") || out.starts_with("abort") { NO_RESULT.fetch_add(1, std::sync::atomic::Ordering::Relaxed); }
@@ -203,7 +205,8 @@ fn run_real(doc: &Document) -> Result<(Vec<ObjectId>, bool), (String, String)> {
         let t: Vec<&str> = rest.split(' ').collect();
         let n: usize = t[0].parse().unwrap_or(0);
         let ids: Vec<ObjectId> = t[1..1 + n].iter().filter_map(|x| { let (a, b) = x.split_once('_')?; Some((a.parse().ok()?, b.parse().ok()?)) }).collect();
-        Ok((ids, t.last() == Some(&"num")))
+        let map: Vec<&str> = t.iter().skip(1 + n + 2).cloned().collect();
+        Ok((ids, t.get(1 + n) == Some(&"num"), format!("ok {}{}", map.len(), map.iter().map(|m| format!(" {}", m)).collect::<String>())))
     } else if out.starts_with("panic") { let site = out.split(' ').nth(1).unwrap_or("?").to_string(); Err((site, out)) }
     else { Err((out.split(' ').next().unwrap_or("?").to_string(), out)) }
 }
@@ -273,9 +276,10 @@ fn check_valid(c: &mut Ctx, r: &mut Rng, t: &T, stream: &str) {
     c.count_n("valid.kids_by_reference", kids_by_ref);
     c.count_n("valid.leaves", leaves.len() as u64);
     if height(t) > 100 { c.count("valid.height_gt_100"); }
-    match run_real(&doc) {
-        Ok((it, num_ok)) => {
+    match run_real_map(&doc) {
+        Ok((it, num_ok, map)) => {
             c.corr(req.clone(), reply(&it));
+            c.corr(req.replacen("pages ", "pagesmap ", 1), map);
             if it != leaves {
                 c.oracle_fail("dfs-order", "page_iter differs from the depth-first leaves of the page tree",
                     json!({"request": req, "expected": reply(&leaves), "actual": reply(&it), "height": height(t)}));
@@ -294,9 +298,10 @@ fn check_any(c: &mut Ctx, doc: &Document, stream: &str) {
     let req = request(doc);
     c.nontrivial(&req);
     c.count(&format!("{}.cases", stream));
-    match run_real(doc) {
-        Ok((it, num_ok)) => {
+    match run_real_map(doc) {
+        Ok((it, num_ok, map)) => {
             c.corr(req.clone(), reply(&it));
+            c.corr(req.replacen("pages ", "pagesmap ", 1), map);
             if it.len() > doc.objects.len() {
                 c.oracle_fail("too-many", "more ids yielded than objects exist", json!({"request": req}));
             }
